@@ -489,7 +489,8 @@ class Algebra:
         bin = reduce(operator.or_, (self.canon2bin.get(f'e{i}', 2 ** self.d) for i in basis_blade[1:]))
         canon_blade = self.bin2canon.get(bin, False)
         if canon_blade:
-            swaps, *_ = _swap_blades(basis_blade, '', target=canon_blade)
+            # Without the 'e' prefix: it is not a basis vector, but it can be the label of one (e.g. start_index=14).
+            swaps, *_ = _swap_blades(basis_blade[1:], '', target=canon_blade[1:])
             return canon_blade, swaps
         # Not a blade of this algebra. (A made up name such as f'e{2 ** self.d}' can be a blade, e.g. with start_index=2 ** d.)
         return basis_blade, 0
